@@ -263,6 +263,11 @@ def _bn_split(xs, a):
     return g, b, rm, rv
 
 
+def _hist_base(shape):
+    n = int(np.prod(shape))
+    return (((np.arange(n) * 7919) % 23) * 0.37 - 3.1).reshape(shape)
+
+
 def _bn_functional(L, t, a):
     g, b, rm, rv = _bn_split(t, a)
     T = L.Tensor
@@ -290,6 +295,13 @@ def _bn_module(L, t, a):
     if a["track"]:
         m.running_mean.data = rm.data.copy()
         m.running_var.data = rv.data.copy()
+    if a.get("history"):
+        # train(A) -> eval(X) -> train(B) before the forward under test: with momentum=None the running statistics must be the
+        # plain average of the statistics of the *training* batches only
+        xa = _hist_base(t[0].shape).astype(t[0].dtype)          # fixed batches (independent of the operand values)
+        m.train(); m(L.Tensor(xa * 1.5 + 1.0))
+        m.eval(); m(L.Tensor(xa * 0.25))
+        m.train(); m(L.Tensor(xa * 0.5 - 2.0))
     m.train() if a["training"] else m.eval()
     STATE["bn"] = (m.running_mean, m.running_var)
     out = m(t[0])
@@ -305,13 +317,17 @@ def _bn_module(L, t, a):
 def _bn_ref(xs, a):
     g, b, rm, rv = _bn_split(xs, a)
     training = a["training"] or not a["track"]
-    y, nm, nv = R.batch_norm(xs[0], g, b, rm, rv, training, a["momentum"], a["eps"])
+    if a.get("history"):
+        xa = _hist_base(xs[0].shape)
+        _, rm, rv = R.batch_norm(xa * 1.5 + 1.0, g, b, rm, rv, True, 1.0, a["eps"])          # cumulative average: factor 1/1
+        _, rm, rv = R.batch_norm(xa * 0.5 - 2.0, g, b, rm, rv, True, 0.5, a["eps"])          # factor 1/2
+    y, nm, nv = R.batch_norm(xs[0], g, b, rm, rv, training, a["momentum"] if a["momentum"] is not None else 0.0, a["eps"])
     return y
 
 
 reg(NNOp("batch_norm", {"functional": _bn_functional, "module": _bn_module}, _bn_ops, _bn_ref,
          mode=lambda a: "richardson" if (a["training"] or not a["track"]) else "affine",
-         argclass=lambda a: f"training={a['training']},affine={a['affine']},track={a['track']},rank{len(a['xshape'])}" + (",then-training-forward" if a.get("second_forward") else "")))
+         argclass=lambda a: f"training={a['training']},affine={a['affine']},track={a['track']},rank{len(a['xshape'])}" + (",then-training-forward" if a.get("second_forward") else "") + (",after-train-eval-train-history" if a.get("history") else "")))
 
 
 # ---------------------------------------------------------------------------------------- dropout
@@ -340,6 +356,8 @@ def operand_values(rng, spec, a):
         return rng.standard_normal(shape) + 3.0
     if vc == "hard01":
         return rng.integers(0, 2, shape).astype(np.float64)
+    if vc == "huge":
+        return rng.uniform(-800.0, 800.0, shape)
     if vc == "negbig":
         return -1e3 - np.abs(rng.standard_normal(shape)) * 1e2
     if vc == "poscode":
@@ -465,6 +483,9 @@ def grid(name, tier, rng):
                         if track:
                             out.append({"xshape": xs, "training": training, "affine": affine, "track": track, "momentum": 0.1, "eps": 1e-5,
                                         "second_forward": True})
+                        if track and not training and xs[0] > 1:
+                            out.append({"xshape": xs, "training": False, "affine": affine, "track": True, "momentum": None, "eps": 1e-5,
+                                        "history": True, "module_only": True})
     elif name == "dropout":
         for s in [[4, 5], [2, 3, 4], [20]]:
             for p in (0, 0.3, 0.9, 1, 0.5):
